@@ -584,8 +584,9 @@ Definition step (P : params) (t : nat) (g : gst) (l : lst) : option (gst * lst *
   | CDyChmod own i =>                           (* version stamp, then FINAL_PERMISSIONS *)
     with_inst g i (fun x =>
       if Nat.ltb 0 (nreg l)
-      then (* registered_services().add: fatal_panic "already registered"; unwinding removes the owned static config *)
-           Some (set_inst g i (upd_dy x DFinal true), set_pc (add_leak l i) (CPanicRmStatic own i), [ECall CChmod (BDyn i) XFinal])
+      then (* registered_services().add: fatal_panic "already registered".  Unreachable as long as a registered node
+              finds its service's static config linked (proofs/ServiceRegistryProofs.v); the unwinding is not modelled *)
+           op_done t (set_inst g i (upd_dy x DFinal true)) (add_leak l i) RPanic (handles l) (nreg l) [ECall CChmod (BDyn i) XFinal]
       else call_succeeds KCreate t (set_inst g i (upd_dy x DFinal true)) l i (i_cfg x) 1 [ECall CChmod (BDyn i) XFinal])
   | CPanicRmStatic own i =>                     (* unwinding: the owned static config is removed, the dynamic one is not owned *)
     fail_with_tag P t (set_cur g None) l own KRetPanic [ECall CRemove BStatic XOk]
